@@ -244,7 +244,9 @@ __strft_card(
 	case DT_SPFL_S_AMPM: {
 		unsigned int casebit = 0;
 
-		if (UNLIKELY(!s.cap)) {
+		if (UNLIKELY(bsz < 2U)) {
+			break;
+		} else if (UNLIKELY(!s.cap)) {
 			casebit = 0x20;
 		}
 		if (d->h >= 12 && d->h < 24) {
